@@ -411,6 +411,8 @@ protected:
     }
 
     std::vector<char> modifyLine(curLine.begin(), curLine.end());
+    // strtok needs a terminated string
+    modifyLine.push_back('\0');
     char* tokenizedString = modifyLine.data();
     char* token;
     token = strtok(tokenizedString, " ");
